@@ -111,6 +111,12 @@ def main():
         evfile = VERIF / ".scratch" / "evidence_dev" / f"{pid}.json"
     rc = 0
     try:
+        # the library is also pip-installed (editable) from /repo/src: make sure the tree under test is the one that gets imported
+        want = str((Path(os.environ.get("VERIF_REPO", "/repo")) / "src").resolve())
+        for name in ("spikeglx", "neuropixel", "ibldsp"):
+            m = importlib.import_module(name)
+            if not str(Path(m.__file__).resolve()).startswith(want + os.sep):
+                raise TLCError(f"module {name} was imported from {m.__file__}, not from the tree under test {want}")
         mod = importlib.import_module(pid.lower())
         if a.replay:
             sc = json.loads(Path(a.replay).read_text())
@@ -139,6 +145,10 @@ def main():
     except Exception:
         traceback.print_exc()
         print(f"MACHINERY-FAILURE property={pid} unexpected exception in the harness", flush=True)
+        rc = 2
+    except SystemExit as e:
+        # library code that ends the interpreter must not end the check with its own exit code and without a word
+        print(f"MACHINERY-FAILURE property={pid} SystemExit({e.code}) escaped from the code under test / the harness", flush=True)
         rc = 2
     finally:
         shutil.rmtree(ctx.scratch, ignore_errors=True)
